@@ -5,6 +5,6 @@ CONSTANTS
   Alpha = "full"
   MaxLen = 14
   MaxDepth = 7
-  Lax = FALSE
+  Lax = TRUE
 CONSTRAINT EmitLeaf
 CHECK_DEADLOCK FALSE
